@@ -642,6 +642,11 @@ impl Gen {
         for n in &ask.nfts {
             if !have.nfts.contains(n) && o.owner_of(n).map(|x| x.as_str()) == Some(who) {
                 opts.push(Piece::Nft(n.0.clone(), n.1.clone()));
+            } else if !have.nfts.contains(n) && self.rng.chance(1, 6) {
+                // sloppy buyer: another token of the asked collection instead of the asked one
+                if let Some((m, _)) = o.nft_owner.iter().find(|(m, ow)| m.0 == n.0 && m.1 != n.1 && ow.as_str() == who) {
+                    opts.push(Piece::Nft(m.0.clone(), m.1.clone()));
+                }
             }
         }
         if opts.is_empty() {
@@ -745,6 +750,28 @@ impl Gen {
         if !pairs.is_empty() && self.rng.chance(9, 10) {
             // prefer re-used proceeds buckets in flipper mode
             let (who, lid, bid) = self.rng.pick(&pairs).clone();
+            return Some(Op::tx(&who, &names.market, msgs::buy(lid, bid), vec![]));
+        }
+        // near misses: a bucket that has the ask's assets but not its amounts, lacks one asset, or has one
+        // too many (over- / under-payment by a unit, wrong token id, partial build) — must be refused
+        let mut near: Vec<(String, u64, u64)> = vec![];
+        for b in &o.buckets {
+            for l in &o.listings {
+                if l.status != St::Finalized || b.funds == l.ask {
+                    continue;
+                }
+                let same_keys = b.funds.fung.keys().eq(l.ask.fung.keys()) && b.funds.nfts.len() == l.ask.nfts.len();
+                let sub = Self::fits(&b.funds, &l.ask) && b.funds.count() + 1 >= l.ask.count();
+                let sup = Self::fits(&l.ask, &b.funds) && l.ask.count() + 1 >= b.funds.count();
+                let same_colls = b.funds.fung == l.ask.fung && b.funds.collections() == l.ask.collections() && !b.funds.nfts.is_empty();
+                if same_keys || sub || sup || same_colls {
+                    near.push((b.key_owner.clone(), l.id, b.key_id));
+                }
+            }
+        }
+        if !near.is_empty() && self.rng.chance(3, 4) {
+            self.count("near_miss_purchase_attempt");
+            let (who, lid, bid) = self.rng.pick(&near).clone();
             return Some(Op::tx(&who, &names.market, msgs::buy(lid, bid), vec![]));
         }
         // an arbitrary (probably refused) attempt
@@ -976,7 +1003,49 @@ impl Gen {
     }
 
     /// any message kind with loosely chosen arguments by any account (mostly refused)
+    /// the OWNER of a random listing sends a random listing message whatever the lifecycle state:
+    /// top-ups, re-pricing, re-finalizing, deleting, withdrawing aimed at finalized / sold / expired listings
+    fn mv_owner_misuse(&mut self, o: &Obs, names: &Names) -> Option<Op> {
+        let l = self.rng.pick_opt(&o.listings)?.clone();
+        let who = l.key_owner.clone();
+        let m = &names.market;
+        self.count("owner_acts_in_any_state");
+        let op = match self.rng.below(8) {
+            0 => {
+                let d = self.rng.pick(&names.natives).clone();
+                Op::tx(&who, m, msgs::add_to_listing(l.id), vec![fund(&d, self.amount().min(o.bal(&who, &Fung::Native(d.clone())).max(1)))])
+            }
+            1 => {
+                let t = self.rng.pick(&names.cw20s).clone();
+                Op::tx(&who, &t, msgs::cw20_send(m, self.amount().min(o.bal(&who, &Fung::Cw20(t.clone())).max(1)), &msgs::inner_add_to_listing_cw20(l.id)), vec![])
+            }
+            2 => {
+                let mine = self.nfts_of(o, &who);
+                let n = self.rng.pick_opt(&mine)?.clone();
+                Op::tx(&who, &n.0, msgs::cw721_send(m, &n.1, &msgs::inner_add_to_listing_cw721(l.id)), vec![])
+            }
+            3 => {
+                let ask = self.random_ask(o, names, &who);
+                Op::tx(&who, m, msgs::change_ask(l.id, &ask), vec![])
+            }
+            4 => Op::tx(&who, m, msgs::finalize(l.id, *self.rng.pick(&LIFETIMES)), vec![]),
+            5 => Op::tx(&who, m, msgs::delete_listing(l.id), vec![]),
+            6 => Op::tx(&who, m, msgs::withdraw_purchased(l.id), vec![]),
+            _ => {
+                // the original seller of a sold listing tries again
+                let seller = o.buckets.iter().find(|b| b.fee.is_some()).map(|b| b.key_owner.clone()).unwrap_or(who.clone());
+                Op::tx(&seller, m, msgs::delete_listing(l.id), vec![])
+            }
+        };
+        Some(op)
+    }
+
     fn mv_freeform(&mut self, o: &Obs, names: &Names) -> Option<Op> {
+        if self.rng.chance(1, 3) {
+            if let Some(op) = self.mv_owner_misuse(o, names) {
+                return Some(op);
+            }
+        }
         let who = self.any_account(names);
         let lid = match self.rng.pick_opt(&o.listings) {
             Some(l) if self.rng.chance(4, 5) => l.id,
